@@ -445,6 +445,8 @@ func spaces(r *ev.Run) []space {
 			{name: "2obj-filter-spellings-rooted", alpha: spell, n: 2, rooted: true, cfgs: join(noAES256, noSeekPairs, rc4TgtPairs), verify: 1},
 			{name: "1obj-direct-values-depth3", alpha: lean, n: 1, depth: 3, dangOp: true, directOp: true, cfgs: [][2]string{{"none", "1.4"}, {"aes-128", "1.7-aes128"}}, verify: 1},
 			{name: "2obj-direct-values-depth2", alpha: lean, n: 2, depth: 2, directOp: true, cfgs: plainPair, verify: 1},
+			{name: "1obj-names-depth2", alpha: names, n: 1, depth: 2, dangOp: true, cfgs: pairs([]string{srcByHand}, []string{"1.4", "2.0"}), verify: 1},
+			{name: "1obj-names-rooted-enc", alpha: names, n: 1, rooted: true, cfgs: pairs([]string{srcByHand}, []string{"1.7-aes128", tgtRC4, tgtNoSeek}), verify: 1},
 			{name: "1obj-filter-chains2-depth3", alpha: chains2, n: 1, depth: 3, dangOp: true, cfgs: join(allPairs, noSeekPairs, rc4TgtPairs), verify: 1},
 			{name: "1obj-filter-chains3-depth2", alpha: chains3, n: 1, depth: 2, cfgs: join(noAES256, noSeekPairs, rc4TgtPairs2), verify: 1},
 			{name: "2obj-filter-chains2-linked-depth2", alpha: chains2Linked, n: 2, depth: 2, cfgs: [][2]string{{"none", "1.4"}, {"aes-128", "1.7-aes128"}}, verify: 1},
@@ -470,6 +472,7 @@ func spaces(r *ev.Run) []space {
 		{name: "1obj-filter-spellings-depth2", alpha: spell, n: 1, depth: 2, dangOp: true, cfgs: join(noAES256, noSeekPairs, rc4TgtPairs), verify: 1},
 		{name: "1obj-filter-spellings-aes256", alpha: spell, n: 1, depth: 1, cfgs: aes256Pairs, verify: 1},
 		{name: "1obj-direct-values-depth2", alpha: lean, n: 1, depth: 2, dangOp: true, directOp: true, cfgs: [][2]string{{"none", "1.4"}, {"aes-128", "1.7-aes128"}}, verify: 1},
+		{name: "1obj-names-rooted", alpha: names, n: 1, rooted: true, cfgs: [][2]string{{srcByHand, "1.4"}, {srcByHand, "1.7-aes128"}}, verify: 1},
 		{name: "1obj-filter-chains2-depth2", alpha: chains2, n: 1, depth: 2, dangOp: true, cfgs: join(noAES256, noSeekPairs, rc4TgtPairs), verify: 1},
 		{name: "1obj-filter-chains2-aes256", alpha: chains2, n: 1, depth: 1, cfgs: aes256Pairs, verify: 1},
 		{name: "1obj-filter-chains3-rooted", alpha: chains3, n: 1, rooted: true, cfgs: [][2]string{{"none", "1.4"}, {"aes-128", "1.7-aes128"}, {"rc4-128", "2.0"}, {"none", tgtNoSeek}}, verify: 1},
@@ -530,7 +533,7 @@ func Run(tier string) int {
 	rn := newRunner(r)
 	r.Rule("a case is (source graph up to isomorphism, program of Copy/CopyReference/Redirect calls, source configuration, target configuration); every case is executed from scratch with the real Writer, Reader and Copier, the target is closed, reopened and compared with the graph of the case description; states = distinct abstract copier states (which source references are translated, to a copy or to a redirect target) per graph and configuration, transitions = histories generated, traces = histories executed on the implementation (all of them); distinct non-trivial = distinct (graph, program) pairs in which at least one reference is translated")
 	r.Assume(
-		"source fixtures are written with pdf.Writer (streams with indirect /Length, /Filter, /DecodeParms through a thin export wrapper that emits the dictionary verbatim) and checked to read back as described",
+		"source fixtures are written with pdf.Writer (streams with indirect /Length, /Filter, /DecodeParms through a thin export wrapper that emits the dictionary verbatim) and checked to read back as described; the fixtures of the name family (source configuration by-hand) are written without the library, by the framework's reference writer and printer (ref/pdffile, ref/pdfsyn), so that a defect of the library's Writer cannot change what the source says, and are checked to read back as described through the library's Reader",
 		"identity of a source object is the object a reference finally leads to; a reference that leads to no object (dangling, free, or the number of a live object with a wrong generation) is a null value; reference loops and chains that pass a redirected object are outside the statement (every outcome accepted)",
 		"the oracle was validated at start-up against an independent reference copier whose targets are described as data (no Writer, no Reader): accepted on every self-test case, and each planted flaw reported under its fingerprint (selftest_* entries); the same correct copies are also sent through the library's Writer and Reader, and a failure of that second part, of a source fixture or of a known witness counts as an infrastructure failure only if the exploration finds no violation (otherwise it is listed under machinery_failures_attributable_to_the_library)",
 		"the fixtures of the filter-chain family are encoded by the harness (compress/zlib, the framework's reference LZW encoder, own ASCIIHex and PNG-Up encoders); the encoding is checked at start-up against decoders that are not the library's (compress/zlib, x/image/tiff/lzw, encoding/hex) and every fixture is checked to decode to its plaintext through the library's Reader before it is used",
@@ -566,7 +569,7 @@ func Run(tier string) int {
 		}
 	}
 
-	r.Dim("source_configurations", srcConfigs)
+	r.Dim("source_configurations", append(append([]string{}, srcConfigs...), srcByHand))
 	r.Dim("target_configurations", append(append([]string{}, tgtConfigs...), tgtNoSeek, tgtRC4))
 	r.Dim("item_kinds", map[string]string{
 		"i": "integer", "s": "string", "n": "null", "a": "[]", "d": "<<>>", "0 1 2": "reference to an object of the graph",
@@ -574,6 +577,12 @@ func Run(tier string) int {
 		"~0 ~1 ~2":            "stale reference: number of a live object, wrong generation (N 1 R while N 0 obj exists)",
 		"[s] <s> [0] <0> ...": "nested direct array / dictionary holding a string or a reference to an object of the graph",
 	})
+	r.Dim("name_family", "names /p23h and dictionary keys =p23h: every name that consists of {nothing, the regular character N} + one byte out of 0x01..0xFF (regular characters, the number sign, delimiters, white space, control characters, DEL and bytes above 0x7E) + a tail out of {nothing, the two hexadecimal digits 41, a hexadecimal digit and another character 4z, two characters that are no hexadecimal digits zz}; every name stands as a name object, as the only element of an array, as the value and as the KEY of the only entry of a dictionary and of a stream dictionary (plain stream, /FlateDecode stream, stream with an indirect /Length), and one level down (a nested direct array holding it, a nested direct dictionary holding it as a value and as a key) inside an array, a dictionary and a stream dictionary; the sources of these spaces are written without the library (source configuration by-hand: ref/pdffile + ref/pdfsyn, classic cross-reference table, unencrypted) and checked to read back as described; oracle as for every value: the same name, the same keys")
+	r.Dim("name_family_names", numNames)
+	r.Dim("name_family_bytes", 255)
+	r.Dim("name_family_tails", nameTailNames)
+	r.Dim("name_family_prefixes", []string{"the byte begins the name", "the byte follows the regular character N"})
+	r.Dim("name_family_object_kinds_per_name", len(names.kinds(1))/numNames)
 	r.Dim("stream_variants", stmNames)
 	r.Dim("filter_spelling_family", "stream variants 5..: every one-filter chain X in {FlateDecode, ASCIIHexDecode, Crypt (Identity)} as /Filter /X and as /Filter [/X], each with /DecodeParms absent, a dictionary, a one-element array (a bare name with an array of parameters and an array with a bare dictionary cannot be decoded: only the rest of the object is judged); [/Crypt /FlateDecode] and [/Crypt /ASCIIHexDecode] with /DecodeParms absent and a two-element array; a stream that starts with /Crypt is stored unencrypted in an encrypted source")
 	r.Dim("filter_spelling_variants", len(spellings))
